@@ -26,7 +26,13 @@ def case_st(draw):
     period_hint = 1
     for _ in range(draw(st.integers(2, 60))):
         k = draw(st.sampled_from(["burst"] * 14 + ["drop", "drop", "drop", "mute", "fmt"]))
-        if k == "burst":
+        if k == "burst" and steps and steps[-1]["op"] == "burst" and draw(st.integers(0, 3)) == 0:
+            # several timeslots of one frame: the same frame number again
+            steps.append({"op": "burst", "fn": steps[-1]["fn"], "tn": draw(st.integers(0, 7))})
+        elif k == "burst" and draw(st.integers(0, 5)) == 0 and any(x["op"] == "burst" for x in steps):
+            prev = [x for x in steps if x["op"] == "burst"][-1]
+            steps.append({"op": "burst", "fn": prev["fn"], "tn": draw(st.integers(0, 7))})
+        elif k == "burst":
             base = draw(st.integers(0, 20000))
             if period_hint > 1 and draw(st.booleans()):
                 fn = base * period_hint             # hits the period
